@@ -228,7 +228,7 @@ ADDED11 = {   # round 11
  "C20": "; _node of legacy csv / fixed-length records",
 }
 ADDED12 = {   # session after round 11
- "C02": "; positional predicates in Eval.tla's xpath table (StreamSelect!PosOK: n[1], n[2], n[last()], *[last()], *[2], a/b[last()]), family 'pos' (records <=4 / <=5 nodes with equally named siblings separated by text)",
+ "C02": "; positional predicates in Eval.tla's xpath table (StreamSelect!PosOK: n[1], n[2], n[last()], *[last()], *[2], a/b[last()]), family 'pos' (records <=4 / <=5 nodes with equally named siblings separated by text); declarations with equal bodies share one template in the template rendering (family 'tplshare'), a template rendering refused while the inlined one is accepted is a violation",
 }
 for _p, _t in ADDED12.items():
     CHECKS[_p]["technique"] += _t
